@@ -92,9 +92,12 @@ class W3Codec(base.Codec):
     # Postings
 
     def postings_writer(self, dbfile, byteids=False):
+        # Vector postings (byteids=True) are addressed by their offset in the
+        # vector file, so they can't be inlined into a terminfo
+        inlinelimit = 1 if byteids else self._inlinelimit
         return W3PostingsWriter(dbfile, blocklimit=self._blocklimit,
                                 byteids=byteids, compression=self._compression,
-                                inlinelimit=self._inlinelimit)
+                                inlinelimit=inlinelimit)
 
     def postings_reader(self, dbfile, terminfo, format_, term=None, scorer=None):
         if terminfo.is_inlined():
@@ -723,7 +726,7 @@ class W3PostingsWriter(base.PostingsWriter):
         # the posting file
         if not self.written() and len(self) < self._inlinelimit:
             terminfo.add_block(self)
-            terminfo.set_inline(self._ids, self._weights, self._values)
+            terminfo.set_inlined(self._ids, self._weights, self._values)
         else:
             # If there are leftover items in the current block, write them out
             if self._ids:
